@@ -50,7 +50,12 @@ func Schema(t *rapid.T, o SchemaOpts) map[string]any {
 		n := rapid.IntRange(1, 3).Draw(t, "ndefs")
 		for i := 0; i < n; i++ {
 			// definition i may only reference definitions < i
-			defs["D"+strconv.Itoa(i)] = g.node(g.o.MaxDepth-1, true)
+			d := g.node(g.o.MaxDepth-1, true)
+			if _, isRef := d["$ref"]; g.o.Defaults && !isRef && g.coin("defdefault", 2) {
+				// a default on the definition itself: what a property that is a bare $ref to it inherits
+				d["default"] = g.defaultValue()
+			}
+			defs["D"+strconv.Itoa(i)] = d
 			g.ndefs = i + 1
 		}
 	}
